@@ -1042,6 +1042,24 @@ class C06(Property):
             role = rng.weighted(["static", "dynamic", "dynamic_nopred"], [3, 2, 1])
             obstacles.append(gen.gen_obstacle(rng, ids.take(), net, role=role, t0=0,
                                               shape_kinds=("rect", "circ", "poly", "group"), on_road=0.7, offset_p=0.2))
+        if rng.chance(0.35) and not lattice:
+            # a hollow obstacle (U outline) around a piece of lanelet: its reference point / centroid lies on the lanelet,
+            # the outline itself runs along both sides of it and need not touch it - centre and shape disagree
+            la = rng.pick(net["lanelets"])
+            k = rng.randrange(len(la["center"]) - 1)
+            cx, cy = [(la["center"][k][j] + la["center"][k + 1][j]) / 2 for j in (0, 1)]
+            wdt = math.hypot(la["left"][k][0] - la["right"][k][0], la["left"][k][1] - la["right"][k][1])
+            th = math.atan2(la["center"][k + 1][1] - la["center"][k][1], la["center"][k + 1][0] - la["center"][k][0])
+            w = rng.uniform(0.2, 0.5)
+            a = wdt / 2 + w + rng.uniform(0.1, 1.2)
+            b = rng.uniform(1.0, 3.0)
+            v = [[-a, -b], [a, -b], [a, b], [a - w, b], [a - w, -b + w], [-a + w, -b + w], [-a + w, b], [-a, b]]
+            mx, my = sum(p[0] for p in v) / len(v), sum(p[1] for p in v) / len(v)
+            v = [[x - mx, y - my] for x, y in v]
+            obstacles.append({"id": ids.take(), "role": "static", "type": "PARKED_VEHICLE", "signal_series": [],
+                              "shape": {"t": "poly", "v": v},
+                              "init": {"t": 0, "pos": [cx, cy], "ori": th - math.pi / 2 + rng.uniform(-0.2, 0.2),
+                                       "vel": 0.0, "acc": 0.0, "yaw": 0.0, "slip": 0.0}})
         for ob in obstacles:
             if ob["role"] == "static" and rng.chance(0.4):
                 ob["init"]["t"] = rng.randint(1, 5)  # a parked vehicle recorded from a later time step on
